@@ -23,7 +23,7 @@ import fcntl
 _lock = open("/tmp/verif-repo.lock", "w")
 fcntl.flock(_lock, fcntl.LOCK_EX)   # one user of /repo at a time
 assert sh(f"git -C {R} diff --quiet").returncode == 0, "/repo dirty"
-env = dict(os.environ, PYTHONPATH=R, DULWICH_WT=R)
+env = dict(os.environ, PYTHONPATH=R, DULWICH_WT=R, DULWICH_TREE=R)
 clean = subprocess.run(["/venv/bin/python", demo], env=env, capture_output=True, text=True, cwd=a.src, timeout=600)
 assert sh(f"git -C {R} apply {patch}").returncode == 0, "patch does not apply"
 try:
